@@ -504,6 +504,7 @@ type session struct {
 	signFail  *bool
 	dead      bool // a storage operation hung: nothing more can be done with this witness
 	prerecord bool // the witness uses verifiers the harness cannot wrap: record the oracle with the harness's own
+	readExt   func(id string) string // the witness is another process: how its state is read
 }
 
 var sessCounter int
@@ -550,6 +551,26 @@ func newSessionWith(t *traceWriter, storeKind string, logs []*logDef, wkeys []wi
 	return s
 }
 
+// newExternalSession describes a witness that runs in another process: the same CFG/LOG/SGN lines, no in-process
+// Witness; its state is read with readExt (the public HTTP API).
+func newExternalSession(t *traceWriter, storeKind string, logs []*logDef, wkeys []witKey, readExt func(id string) string) *session {
+	sessCounter++
+	s := &session{id: fmt.Sprintf("S%d", sessCounter), t: t, logs: logs, wkeys: wkeys, readExt: readExt}
+	s.store = storeHandle{kind: storeKind, close: func() {}}
+	t.line("CFG %s %s", s.id, storeKind)
+	for _, l := range logs {
+		l.id = f_log.ID(l.origin)
+		l.rv = &recVerifier{inner: l.key.verif, vid: newVid("L"), t: t}
+		t.line("LOG %s %s %s %s %d %s", s.id, hx([]byte(l.id)), hx([]byte(l.origin)), hx([]byte(l.key.verif.Name())), l.key.verif.KeyHash(), l.rv.vid)
+	}
+	for _, k := range wkeys {
+		rv := &recVerifier{inner: k.ind, vid: newVid("W"), t: t}
+		s.wrv = append(s.wrv, rv)
+		t.line("SGN %s %s %d %s %s", s.id, hx([]byte(k.signer.Name())), k.signer.KeyHash(), rv.vid, k.kind)
+	}
+	return s
+}
+
 func (s *session) end() {
 	s.t.line("END %s", s.id)
 	if s.dead {
@@ -561,6 +582,9 @@ func (s *session) end() {
 func (s *session) readState(logID string) string {
 	if s.dead {
 		return "!"
+	}
+	if s.readExt != nil {
+		return s.readExt(logID)
 	}
 	if s.ctl != nil || s.store.kind != "mem" {
 		// a read on a store whose only connection is pinned by a transaction left open never returns
